@@ -159,6 +159,20 @@ impl Ctx {
         if tr.deep {
             self.note_nontrivial(fnv64(input) ^ mix(codec as u64 + 1));
             self.rep.count("nontrivial:bgp");
+            // a few complete cases written out: one early, then sparsely (inputs are generated,
+            // so "every 100 003rd deep case" spreads the samples over the mutation space)
+            if self.rep.want_sample() && (self.rep.samples.is_empty() || self.rep.evaluations % 100_003 == 0) {
+                self.rep.sample(Json::obj(vec![
+                    ("decoder", Json::s("bgp: try_parse + validate_message (run_select rx loop)")),
+                    ("origin", Json::s(origin())),
+                    ("codec", Json::Int(codec as i128)),
+                    ("input_hex", Json::s(hex(&input[..input.len().min(160)]))),
+                    ("input_len", Json::Int(input.len() as i128)),
+                    ("fragment_cuts", Json::s(format!("{:?}", &cuts[..cuts.len().min(12)]))),
+                    ("messages_decoded", Json::Int(tr.msgs.len() as i128)),
+                    ("end_state", Json::s(format!("{:?}", tr.term))),
+                ]));
+            }
         }
         match &tr.term {
             Term::NeedMore { .. } => self.rep.count("term:need-more"),
